@@ -26,7 +26,8 @@ def run(ctx, db, tier):
     private_fifo(ctx, db, 'C07.private-fifo')
     release_once(ctx, db, 'C07.release-once')
     ownership_unique(ctx, db, 'C07.ownership-unique')
-    from . import C02
+    from . import C02, C06
+    C06.consumers_clear(ctx, db, 'C07.awaited-release-resumes-once')
     C02.sync_waits(ctx, db, 'C07.blocking-lock-waits')
     atomic.check_roles(ctx, db, 'C07.acquire-release', only_functions={'cocls::mutex::ready', 'cocls::mutex::unlock', 'cocls::mutex::build_queue', 'cocls::awaiter::subscribe'}, floor=4)
     if ctx.cfg == 'assert':
